@@ -533,4 +533,5 @@ CLAIM = {
     "text": "Generated-input search: exhaustive short names over a representative alphabet, Unicode names and canary paths with injected invalid characters, malformed descriptors, at generated depths, on client and server side, with class translation on and off; observers decide 'nothing imported or constructed', json.loads decides 'plain decoding', the reply decides -32700.",
     "note": "Trusts the observers (validated by a positive control in every worker) and Python's json; a C-level import bypassing __import__ and the audit hook would be invisible.",
     "design_ref": "DESIGN.md section 4, C08",
+    "engine": "E1+E4",
 }
